@@ -207,6 +207,16 @@ func totalInputs(fmtName string, salt int64, nNoise int) [][]byte {
 	floats := []string{"0.0123456789012", "16777217", "1e40", "1e-50", "3.141592653589793", "-2.2250738585072014e-308",
 		"0x1.fffffffffffffp+1023", "1.7976931348623157e308", "4.9e-324", "123456789.123456789", "0.1", "-0.30000000000000004"}
 	switch fmtName {
+	case "fasta":
+		// layouts the writer would not produce: long unwrapped lines over bytes that could mean something at a line start
+		for i := 0; i < 40+nNoise/10; i++ {
+			alpha := []byte("ACGT;>#@+*-!%\t \\'\"")
+			b := []byte(">s\n")
+			for j := 81 + r.Intn(320); j > 0; j-- {
+				b = append(b, alpha[r.Intn(len(alpha))])
+			}
+			out = append(out, append(b, '\n'))
+		}
 	case "newick":
 		for i := 0; i < 12+nNoise/10; i++ {
 			f := func() string { return floats[r.Intn(len(floats))] }
